@@ -2,6 +2,43 @@
 use crate::util::*;
 use serde_json::{json, Value};
 
+/// scale: more bytes than an internal buffer (8 KiB, 64 KiB), lines longer than one, with the
+/// marker early, late, or exactly across a buffer boundary
+pub fn big_data(rng: &mut Rng) -> Vec<u8> {
+    let total = threshold(rng, 140000).max(4097);
+    let mut out: Vec<u8> = vec![];
+    let fill = |out: &mut Vec<u8>, n: usize, rng: &mut Rng| { for _ in 0..n { out.push(*rng.pick(b"abcdefgh 0123456789+-")); } };
+    match rng.below(4) {
+        // one very long line with the marker at a chosen offset
+        0 => {
+            let at = *rng.pick(&[0usize, 5, 4090, 8186, 8190, 8192, 65530, 65536, 70000]);
+            let at = at.min(total.saturating_sub(8));
+            fill(&mut out, at, rng);
+            out.extend_from_slice(b"$NetBSD$");
+            fill(&mut out, total - at - 8, rng);
+            if rng.chance(1, 2) { out.push(b'\n'); }
+            out.extend_from_slice(b"after\n");
+        }
+        // many ordinary lines, some with the marker
+        1 => {
+            while out.len() < total {
+                if rng.chance(1, 9) { out.extend_from_slice(b"+ $NetBSD: x $"); }
+                let n = rng.range(0, 90);
+                fill(&mut out, n, rng);
+                out.push(b'\n');
+            }
+        }
+        // a long line without the marker, then marker lines
+        2 => {
+            fill(&mut out, total, rng);
+            out.extend_from_slice(b"\n$NetBSD$\nlast");
+        }
+        // binary
+        _ => { for _ in 0..total { out.push(rng.below(256) as u8); } }
+    }
+    out
+}
+
 pub fn data(rng: &mut Rng, maxlen: usize) -> Vec<u8> {
     let mut out = vec![];
     if rng.chance(1, 3) {
@@ -52,7 +89,7 @@ pub fn schedule(rng: &mut Rng, d: &[u8]) -> Value {
     while pos < len {
         if let Some(e) = err_at {
             if !erred && pos >= e {
-                evs.push(json!(["err", 0]));
+                evs.push(json!(["err", rng.below(7)]));
                 erred = true;
                 break;
             }
@@ -71,6 +108,7 @@ pub fn schedule(rng: &mut Rng, d: &[u8]) -> Value {
                 let n = rest.iter().position(|c| *c == b'\n').map(|i| i + rng.below(2));
                 match (m, n) { (Some(a), _) if rng.chance(1, 2) => a.max(1), (_, Some(b)) => b.max(1), (Some(a), None) => a.max(1), _ => rng.range(1, 64) }
             }
+            _ if len > 4096 => *rng.pick(&[4096usize, 8192, 8192, 16384, 65536, 70000, 1, 8191, 8193]),
             _ => rng.range(1, 600),
         };
         let k = k.min(len - pos);
@@ -79,7 +117,7 @@ pub fn schedule(rng: &mut Rng, d: &[u8]) -> Value {
     }
     if !erred {
         if err_at == Some(len) {
-            evs.push(json!(["err", 0]));
+            evs.push(json!(["err", rng.below(7)]));
         } else {
             if rng.chance(1, 7) { evs.push(json!(["intr", 0])); }
             evs.push(json!(["eof", 0]));
@@ -89,7 +127,7 @@ pub fn schedule(rng: &mut Rng, d: &[u8]) -> Value {
 }
 
 pub fn case(rng: &mut Rng) -> Value {
-    let d = data(rng, 1500);
+    let d = if rng.chance(1, 120) { big_data(rng) } else { data(rng, 1500) };
     let mode = if rng.chance(1, 2) { "patch" } else { "plain" };
     json!({"mode": mode, "data": bytes_json(&d), "sched": schedule(rng, &d)})
 }
